@@ -26,7 +26,10 @@
 (***************************************************************************)
 EXTENDS Integers, Sequences, FiniteSets, TLC, Json
 
-CONSTANTS Instances     \* set of problem instances [n |-> number of particles, links |-> sequence of pairs <<i, j>>]:
+CONSTANTS Repair,       \* the design variant: {"tailcut-order", "fresh-head-id"} = the algorithm as it is in the tree
+                        \* (after the repairs 1437bd7 and 00e911b); leaving one out gives the earlier, defective
+                        \* design, which TLC must find violating (negative controls of the driver)
+          Instances     \* set of problem instances [n |-> number of particles, links |-> sequence of pairs <<i, j>>]:
                         \* links lists the linked pairs (exit of i -> entry of j in range) by strictly increasing distance
 
 VARIABLES inst,         \* the instance
@@ -153,7 +156,9 @@ Suffix(t, ch, a, cur) ==
                     THEN LET moved == MapRows(t, LAMBDA r : IF r.obj = tcl /\ r.ord > oid THEN [r EXCEPT !.obj = fresh] ELSE r)
                          IN  [k \in DOMAIN moved |->
                                  IF moved[k].obj = fresh
-                                 THEN [moved[k] EXCEPT !.ord = Cardinality({ x \in 1..k : moved[x].obj = fresh })]
+                                 THEN IF "tailcut-order" \in Repair
+                                      THEN [moved[k] EXCEPT !.ord = @ - oid]              \* 1437bd7: keep the chain order
+                                      ELSE [moved[k] EXCEPT !.ord = Cardinality({ x \in 1..k : moved[x].obj = fresh })]
                                  ELSE moved[k]]
                     ELSE t
               cmax == MaxOrd(t1, tcl)
@@ -202,7 +207,7 @@ StartChain(i) ==
         first == ch0[1].p
         last == ch0[Len(ch0)].p
     IN  IF tr = <<>>
-        THEN [t |-> ch0, members |-> members, how |-> <<"first-chain">>, err |-> ""]
+        THEN [t |-> ch0, members |-> members, how |-> <<"first-chain">>, err |-> "", ccnext |-> cc + 1]
         ELSE
           LET nm0 == NearestFwd(last, done)
               fi0 == NearestBack(first, done)
@@ -215,10 +220,14 @@ StartChain(i) ==
               nm == IF same /\ fd <= nd THEN 0 ELSE nm0
               s == IF fi # 0 THEN Suffix(tr, ch0, fi, fd)
                    ELSE [t |-> tr, ch |-> ch0, changed |-> FALSE, how |-> "no-suffix"]
-              cm == IF s.changed THEN << MaxOf({ s.ch[k].ord : k \in DOMAIN s.ch }), cc >> ELSE <<>>
+              \* earlier design: the head cut of a two-sided join reuses the chain's fresh number cc (already given to a
+              \* cut tail); "fresh-head-id" (00e911b): it gets a number of its own, cc + 1
+              extra == nm # 0 /\ s.changed /\ "fresh-head-id" \in Repair
+              cm == IF s.changed THEN << MaxOf({ s.ch[k].ord : k \in DOMAIN s.ch }), IF extra THEN cc + 1 ELSE cc >> ELSE <<>>
               p == IF nm # 0 THEN Prefix(s.t, s.ch, nm, nd, cm)
                    ELSE [t |-> s.t, ch |-> s.ch, how |-> "no-prefix", err |-> ""]
-          IN  [t |-> p.t \o p.ch, members |-> members, how |-> <<s.how, p.how>>, err |-> p.err]
+          IN  [t |-> p.t \o p.ch, members |-> members, how |-> <<s.how, p.how>>, err |-> p.err,
+               ccnext |-> IF extra THEN cc + 2 ELSE cc + 1]
 
 AInit == /\ inst \in Instances
          /\ tr = <<>>
@@ -236,7 +245,7 @@ ANext == /\ err = ""
             ELSE LET r == StartChain(nxt)
                  IN  /\ tr' = r.t
                      /\ done' = done \cup r.members
-                     /\ cc' = cc + 1
+                     /\ cc' = r.ccnext
                      /\ err' = r.err
                      /\ log' = Append(log, r.how)
                      /\ nxt' = nxt + 1
@@ -251,7 +260,9 @@ OutOf(t) == [k \in DOMAIN t |-> [sid |-> t[k].p, tomo |-> 1, obj |-> t[k].obj, o
 TomoOne == [p \in Parts |-> 1]
 RecIsRank(a, b, r) == <<a, b>> \in LinkSet /\ r = Rank(a, b)
 
-\* the property, asked of the algorithm model (NOT a theorem of the pinned algorithm: TLC finds the counter-examples)
+\* the property, asked of the algorithm model.  With both repairs TLC finds no counter-example in the scopes the driver
+\* explores; without "tailcut-order" clause (iii) fails (a cut tail renumbered in table order), without "fresh-head-id"
+\* clause (ii) fails (tail piece and head piece of a two-sided join share an object number) - six particles suffice
 C19_AlgoValid == ADone => (err = "" /\ ValidTrace(OutOf(tr), Parts, TomoOne, LinkSet, RecIsRank))
 \* the same after every iteration, for the particles traced so far
 C19_AlgoStepValid == err = "" => ValidTrace(OutOf(tr), done, TomoOne, LinkSet, RecIsRank)
@@ -262,7 +273,7 @@ AlgoClause == IF err # "" THEN "call_raises"
 
 \* JSON for the driver at the end of a run: the instance, the model's table, the verdict of the predicate on it
 AlgoRecord == [n |-> N, links |-> inst.links,
-               table |-> [k \in DOMAIN tr |-> <<tr[k].p, tr[k].obj, tr[k].ord>>],
+               table |-> [k \in DOMAIN tr |-> <<tr[k].p, tr[k].obj, tr[k].ord, tr[k].rec>>],
                how |-> log, err |-> err, clause |-> AlgoClause,
                reorderable |-> IF AlgoClause \in {"C19_ConsecutiveLinked", "C19_RecordedDistance"}
                                THEN Reorderable(OutOf(tr), LinkSet, RecIsRank) ELSE FALSE]
